@@ -278,7 +278,7 @@ func runScenario(sc scenario) (outcome, error) {
 func TestPropNonConflictingWritesNotBlocked(t *testing.T) {
 	rec.Assume("conflict = a write to a shard of the bucket under delete with a point time inside the delete's [min,max] (the guard the store installs); writes to other buckets and writes whose times all lie outside [min,max] are non-conflicting; in-range writes to series the predicate does not match are not asserted either way")
 	rec.Assume("bounded wait of 5 s per write while the delete is held at tsm1.tombstone.after-tmp-write; a timeout that does not reproduce in 3 runs is reported as inconclusive")
-	rec.Check(t, 24, 300, func(t *rapid.T) {
+	rec.Check(t, 20, 300, func(t *rapid.T) {
 		sc := scenario{Hours: rapid.IntRange(2, 3).Draw(t, "hours"), WaitSecs: 5}
 		nser := rapid.IntRange(2, 5).Draw(t, "nser")
 		perm := rapid.Permutation(seriesDomain[:9]).Draw(t, "perm")
